@@ -118,6 +118,7 @@ type scenario struct {
 	WriteBuffer int          `json:"write_buffer"`
 	NoMerge     bool         `json:"no_write_merge"`
 	NoSync      bool         `json:"no_sync"`
+	NoLargeTxn  bool         `json:"disable_large_batch_transaction"`
 	Writers     [][]callSpec `json:"writers"`
 	NCompact    int          `json:"compact_range_calls"`
 	NTxn        int          `json:"transactions"`
@@ -183,14 +184,14 @@ func genScenario(seed uint64, run int, tier string) *scenario {
 	sc := &scenario{Seed: seed, Run: run, Tier: tier, SetRO: -1, CloseRace: -1,
 		FaultWrite: [2]int{-1, 0}, FaultSync: [2]int{-1, 0}, FaultCreate: [2]int{-1, 0}}
 	// rotate through the classes so that every quick run covers all of them
-	classes := []string{"small", "big", "mixed", "compact", "txn", "close", "readonly", "fault", "nomerge", "small", "big", "close"}
+	classes := []string{"small", "big", "mixed", "compact", "txn", "close", "readonly", "fault", "nomerge", "puts", "big", "close", "putsfault"}
 	sc.Class = classes[run%len(classes)]
 	sizeClass := 0
 	switch sc.Class {
 	case "big":
 		sizeClass = 1
 		sc.WriteBuffer = 4 << 20
-	case "small", "close", "fault":
+	case "small", "close", "fault", "puts", "putsfault":
 		sc.WriteBuffer = []int{2 << 10, 4 << 10, 8 << 10, 16 << 10}[r.Intn(4)]
 	default:
 		if r.Chance(1, 3) {
@@ -204,6 +205,7 @@ func genScenario(seed uint64, run int, tier string) *scenario {
 		}
 	}
 	sc.NoSync = r.Chance(1, 2)
+	sc.NoLargeTxn = (sc.Class == "mixed" || sc.Class == "small" || sc.Class == "fault") && r.Chance(1, 2)
 	sc.NoMerge = sc.Class == "nomerge" && r.Chance(1, 2)
 	total := r.Range(8, 26)
 	if sizeClass == 1 {
@@ -229,11 +231,22 @@ func genScenario(seed uint64, run int, tier string) *scenario {
 			c.Kind = 2
 			c.NRec = r.Range(1, 5)
 		}
+		if sc.Class == "puts" || sc.Class == "putsfault" {
+			// Put-only: merged Puts are appended to the leader's own batch, which then reaches mdbFree
+			c.Kind, c.NRec = 0, 1
+			c.Size = r.Range(sc.WriteBuffer/10, sc.WriteBuffer/3)
+			if r.Chance(2, 3) { // divisors of the buffer size: groups fill the memdb exactly, which forces the rotate step
+				c.Size = sc.WriteBuffer / []int{2, 4, 8, 16}[r.Intn(4)]
+			}
+		}
 		if c.Size < 18*c.NRec+c.NRec {
 			c.Size = 19 * c.NRec
 		}
 		if c.Kind == 1 {
 			c.Size = 18
+		}
+		if sc.NoLargeTxn && c.Kind == 2 && r.Chance(1, 6) {
+			c.Size = sc.WriteBuffer + r.Range(0, 3000) // larger than the buffer, but journalled: memdb grows, then rotates
 		}
 		if sc.Class == "nomerge" || sc.Class == "mixed" {
 			c.NoMerge = r.Chance(1, 3)
@@ -265,6 +278,8 @@ func genScenario(seed uint64, run int, tier string) *scenario {
 		sc.CloseRace = r.Range(1, total-1)
 	case "readonly":
 		sc.SetRO = r.Range(1, total-1)
+	case "putsfault":
+		sc.FaultCreate = [2]int{r.Range(0, 3), r.Range(1, 3)}
 	case "fault":
 		switch r.Intn(3) {
 		case 0:
@@ -279,7 +294,7 @@ func genScenario(seed uint64, run int, tier string) *scenario {
 	for g := range sc.Writers {
 		for k := range sc.Writers[g] {
 			c := &sc.Writers[g][k]
-			c.TxnPath = c.Kind == 2 && c.Size > sc.WriteBuffer
+			c.TxnPath = c.Kind == 2 && c.Size > sc.WriteBuffer && !sc.NoLargeTxn
 		}
 	}
 	sc.YieldMode = r.Pick(1, 2, 3, 5, 3)
@@ -370,7 +385,7 @@ func runScenario(sc *scenario) *runResult {
 	if sc.FaultCreate[0] >= 0 {
 		js.failCreateFrom++ // never fail the journal created by Open
 	}
-	o := &opt.Options{WriteBuffer: sc.WriteBuffer, NoWriteMerge: sc.NoMerge, NoSync: sc.NoSync}
+	o := &opt.Options{WriteBuffer: sc.WriteBuffer, NoWriteMerge: sc.NoMerge, NoSync: sc.NoSync, DisableLargeBatchTransaction: sc.NoLargeTxn}
 	db, err := leveldb.Open(js, o)
 	if err != nil {
 		res.problems = append(res.problems, "open: "+err.Error())
@@ -1064,8 +1079,8 @@ func main() {
 	defer res.Write()
 	leveldb.VerifSetHooks(yield, record)
 
-	nruns, kcap := 96, 48
-	budget := 40 * time.Second
+	nruns, kcap := 480, 320
+	budget := 45 * time.Second
 	if a.Thorough() {
 		nruns, kcap, budget = 4000, 320, 18*time.Minute
 	}
